@@ -350,10 +350,30 @@ def has_null(v):
     return False
 
 
+def list_variants(r, v):
+    """for a value holding a list (at any depth): the list resampled from SOME of its element shapes, shorter and longer"""
+    if v[0] == "l" and v[1]:
+        n = r.choice([0, 1, len(v[1]), len(v[1]) + 1, 2 * len(v[1]) + 1, 7])
+        shapes = r.sample(v[1], r.randint(1, len(v[1])))
+        return ("l", [fresh_same_type(r, r.choice(shapes)) for _ in range(n)])
+    if v[0] == "t" and v[1]:
+        i = r.randrange(len(v[1]))
+        f = list(v[1])
+        f[i] = (f[i][0], list_variants(r, f[i][1]))
+        return ("t", f)
+    return fresh_same_type(r, v)
+
+
+def has_list(v):
+    return v[0] == "l" or (v[0] == "t" and any(has_list(x) for _, x in v[1]))
+
+
 def values_for(r, c):
     out = []
     if c[0] == "ex":
         out += [c[1], fresh_same_type(r, c[1]), mutate_val(r, c[1]), mutate_val(r, c[1]), rand_val(r, 2)]
+        if has_list(c[1]):
+            out += [list_variants(r, c[1]), list_variants(r, c[1]), list_variants(r, c[1])]
     elif c[0] == "range":
         out += boundary_values(r, c)
         out += [rand_prim(r, c[1])]
